@@ -24,8 +24,8 @@ CONSTANTS Menu,        \* set of item ids this configuration may use
 
 NoRat  == <<0, 0>>
 NoName == "NONE"
-BaseTypes == {"A", "B", "M", "D"}
-BaseUnits == {"a", "b", "p", "q", "d", "mpx"}
+BaseTypes == {"A", "B", "M", "D", "Bd2"}
+BaseUnits == {"a", "b", "p", "q", "d", "mpx", "bdref"}
 ZeroVec == [u \in BaseUnits |-> 0]
 ZeroDim == [t \in BaseTypes |-> 0]
 UnitVec(s) == [u \in BaseUnits |-> IF u = s THEN 1 ELSE 0]
